@@ -17,6 +17,9 @@ CHECKS = {
  'C03': ('model_checking', 'symbolic execution of clang LLVM IR of every relation the inventory finds; z3 nlsat decides, one base dimension at a time, that rescaling the inputs by sigma^(2 d) rescales the result by sigma^(2 d_result) for all reals and all sigma > 0',
          'Every constructor, operator and member function between quantity types (about 900 relations, recomputed from the current tree) is executed symbolically and proved homogeneous of exactly the degree its declared result dimensions predict, for all real inputs and all positive unit rescalings; the declared dimension arithmetic of * / + - is checked as ground facts.',
          'exact real arithmetic; declared exponents read from the IR constants of X::Dimensions(); quick tier analyses the double instantiation of the templates, thorough all three; libm other than sqrt/fabs uninterpreted', '3 C03'),
+ 'C05': ('model_checking', 'symbolic execution of clang LLVM IR of every derived inverse pair composed in one wrapper; z3 nlsat decides the identity over the positive reals and a 16-ulp bound under the standard rounding model; per-relation accuracy by solver-checked local error lemmas',
+         'About 475 inverse pairs derived from the constructor signatures of the current tree are composed, executed symbolically in all three numeric types and shown to return the original argument exactly over the reals and within 16 ulps for multiplicative compositions; every relation on its own is within 8 ulps of its own exact formula; planar/3-D embeddings are the identity on bits.',
+         'standard model of rounding (no overflow/underflow); compositions containing a sum or difference are ill-conditioned by construction (heat-capacity family) and are decided per step + exact identity, as DESIGN.md explains; composition of local lemmas trusted', '3 C05'),
 }
 NA = {}
 def main():
